@@ -10,6 +10,7 @@ import asyncstdlib as A
 
 from ..loop import CTX, run_sync
 from ..tools import decode
+from ..probes import PLANNED, PLANNED_NAMES
 
 ID = "C10"
 LEVEL = "exploration"
@@ -68,7 +69,7 @@ def cases(tier, seed, shard, nshards):
                 idx += 1
                 if idx % nshards == shard:
                     yield {"maxsize": maxsize, "typed": False, "form": "paren", "kind": "function", "ops": list(hist),
-                           "enumerated": True}
+                           "enumerated": True, "exc": PLANNED_NAMES[(idx // nshards) % len(PLANNED_NAMES)]}
     rng = random.Random(f"C10-{seed}-{shard}")
     # re-entrant histories: the wrapped function calls its own cache for other arguments (recursion deeper than
     # maxsize, shared sub-problems); still one sequential history, with a synchronous twin under functools
@@ -104,7 +105,8 @@ def cases(tier, seed, shard, nshards):
         if kind == "method":
             ops = [op + [rng.randrange(2)] if op[0] in ("call", "fail", "discard") else op for op in ops]
         yield {"maxsize": rng.choice([None, -1, 0, 1, 1, 2, 2, 3, 4, 5, "default"]), "typed": rng.random() < 0.4,
-               "form": rng.choice(["paren", "paren", "bare", "empty"]), "kind": kind, "ops": ops}
+               "form": rng.choice(["paren", "paren", "bare", "empty"]), "kind": kind, "ops": ops,
+               "exc": rng.choice(PLANNED_NAMES)}
 
 
 class LRUModel:
@@ -157,11 +159,12 @@ class Backend:
     def __init__(self):
         self.log = []
         self.fail = False
+        self.exc = ValueError
 
     def body(self, args, kwargs):
         self.log.append((repr(args), repr(sorted(kwargs.items()))))
         if self.fail:
-            raise ValueError("planned failure")
+            raise self.exc("planned failure")
         return ("r", len(self.log))
 
 
@@ -343,6 +346,8 @@ def run_case(case, stats: Counter):
     CTX.reset()
     env = build(case)
     ba, bs, bm = env["backends"]
+    for b in (ba, bs, bm):
+        b.exc = PLANNED[case.get("exc", "ValueError")]
     has_discard = any(op[0] == "discard" for op in case["ops"])
     viols = []
     hits_seen = False
